@@ -292,11 +292,11 @@ def harness_cases(tier, sd):
         cases.append(c)
 
     # (a) atom kinds x value classes: every edit of a referenced value must re-execute
-    kinds = ["", "const", "default", "closure", "helper", "nested", "module", "modfn", "recursive", "flag"]
-    classes = ["", "int16", "int32", "str", "tuple", "dict", "float", "intfloat", "dictorder"]
+    kinds = ["", "const", "default", "closure", "helper", "nested", "module", "modfn", "recursive", "flag", "stdlib"]
+    classes = ["", "int16", "int32", "str", "tuple", "dict", "float", "intfloat", "dictorder", "zeropair"]
     for k in kinds:
         for v in classes:
-            if quick and k != "flag" and (kinds.index(k) + classes.index(v)) % 3 != sd % 3 and not (k == "" or v in ("int16", "intfloat", "dictorder")):
+            if quick and k != "flag" and (kinds.index(k) + classes.index(v)) % 3 != sd % 3 and not (k == "" or (k == "stdlib" and v == "") or v in ("int16", "intfloat", "dictorder", "zeropair")):
                 continue
             shape = json.loads(json.dumps(SHAPES["chain"]))
             if k == "flag":
@@ -343,6 +343,11 @@ def harness_cases(tier, sd):
             # a source file is away while a collection runs and comes back unchanged
             add("gc", name, [B(top), {"op": "delete", "s": s0}, dict(B(top, gc=True), clean=False), {"op": "restore", "s": s0}, B(top), B(top)], twin="gc")
             add("gc", name, [B(top), {"op": "delete", "s": s0}, dict(B(top, gc=True, index=True), clean=False), {"op": "restore", "s": s0}, B(top)], twin="gc")
+            # a declared source that does not exist is an input like any other: its absence is
+            # recorded, and an unchanged tree without it builds nothing
+            add("miss", name, [B(top), {"op": "delete", "s": s0}, dict(B(top), clean=False), dict(B(top), clean=False), dict(B(top, "dry"), clean=False),
+                               {"op": "restore", "s": s0}, B(top), B(top)])
+            add("miss", name, [{"op": "delete", "s": s0}, dict(B(top), clean=False), dict(B(top), clean=False), {"op": "nonedit", "kind": "comment"}, dict(B(top), clean=False)])
         add("fail", name, [B(top, fail=[inner[0]]), B(inner[0]), B(top)])
         # the edit that made a target fail is undone: its last attempt still failed
         add("fail", name, [B(top), {"op": "edit_env", "t": inner[0]}, B(top, fail=[inner[0]]), {"op": "revert_env", "t": inner[0]}, B(top), B(top)])
@@ -352,6 +357,10 @@ def harness_cases(tier, sd):
         add("fail", name, [B(top), es, B(top, fail=[inner[0]]), es, B(inner[0]), B(top), B(top)])
         if name in RESHAPE:
             add("gc", name, [B(top), {"op": "reshape"}, B(roots_of(RESHAPE[name])[0], gc=True), B(roots_of(RESHAPE[name])[0])])
+            # a dry run while part of the project is away (BUILD files edited), then the edit is undone:
+            # the records of what was away are still there
+            r2 = roots_of(RESHAPE[name])[0]
+            add("dryr", name, [B(top), {"op": "reshape"}, B(r2, "dry"), {"op": "reshape"}, dict(B(top), clean=False), B(top)], twin="dry")
         for g in gens:
             add("gen", name, [B(top), {"op": "delete", "s": g}, B(top), B(top), {"op": "delete", "s": g}, B(top, "dry"), B(top)])
         if shape.get("dirs"):
